@@ -39,6 +39,7 @@ REQUIRED = ["built", "fields_compared", "repacked", "ipv4_csums", "l4_csums",
             "last_fragments_of_parsed_protocols",
             "template_frames_roundtripped", "library_chosen_identifications",
             "earlier_packets_rechecked", "transport_headers_put_under_a_new_ip_header",
+            "parsed_packets_edited_and_serialised_again",
             "transport_headers_moved_to_the_other_ip_version",
             "v6_csums"]
 TIMEOUT = {"quick": 900, "thorough": 7200}
@@ -662,6 +663,73 @@ def run_rehome (case, rep):
   return b
 
 
+EDITS = {
+  # layer class -> [(attribute, new value from old)]
+  "ipv4": [("ttl", lambda v: (v + 1) % 256), ("id", lambda v: (v + 7) & 0xffff)],
+  "ipv6": [("hop_limit", lambda v: (v + 1) % 256)],
+  "tcp": [("seq", lambda v: (v + 1) & 0xffffffff), ("win", lambda v: (v ^ 1) & 0xffff)],
+  "udp": [("srcport", lambda v: (v ^ 1) & 0xffff)],
+  "vlan": [("id", lambda v: (v ^ 1) & 0xfff)],
+  "arp": [("opcode", lambda v: 3 - v if v in (1, 2) else 1)],
+  "mpls": [("ttl", lambda v: (v + 1) % 256)],
+  "RIPEntry": [("metric", lambda v: (v % 15) + 1), ("route_tag", lambda v: (v + 1) & 0xffff)],
+}
+
+
+def run_edit (case, rep):
+  """
+  A received packet is changed and sent on (what a router, a NAT or a
+  routing daemon does): one header field of the *parsed* packet gets a new
+  value; the bytes it is serialised to carry that value (parsing them again
+  gives it back), everything else as before, lengths and checksums right.
+  """
+  pkt = P()
+  kind = case["kind"]
+  def fire (key, what):
+    rep.violation("C14 " + key, what, case)
+  rng = random.Random(case["seed"])
+  try:
+    p = build(kind, rng)
+    b = p.pack()
+    q = pkt.ethernet(raw=b)
+  except Exception:
+    return
+  def layers (x):
+    out = list(chain(x)[0])
+    for l in list(out):
+      for e in getattr(l, "entries", None) or []:
+        out.append(e)
+    return out
+  cands = [(i, l) for i, l in enumerate(layers(q)) if type(l).__name__ in EDITS]
+  if not cands: return
+  i, lay = cands[rng.randrange(len(cands))]
+  tn = type(lay).__name__
+  attr, f = EDITS[tn][rng.randrange(len(EDITS[tn]))]
+  try:
+    old = getattr(lay, attr)
+    newv = f(old)
+    setattr(lay, attr, newv)
+    b2 = q.pack()
+    r = pkt.ethernet(raw=b2)
+  except Exception as ex:
+    fire("edited %s: changing %s.%s and re-serialising raises %s" % (kind, tn, attr, type(ex).__name__),
+         traceback.format_exc()[-500:]); return
+  rep.count("parsed_packets_edited_and_serialised_again")
+  got = layers(r)
+  if i >= len(got) or type(got[i]).__name__ != tn:
+    fire("edited %s: layers differ after changing %s.%s" % (kind, tn, attr),
+         ">".join(type(x).__name__ for x in got)); return
+  if getattr(got[i], attr) != newv:
+    fire("edited %s: a changed %s.%s is not in the bytes sent" % (kind, tn, attr),
+         "set to %r (was %r), the serialised packet says %r" % (newv, old, getattr(got[i], attr)))
+    return
+  if len(b2) != len(b):
+    fire("edited %s: changing %s.%s changed the frame length" % (kind, tn, attr),
+         "%d -> %d" % (len(b), len(b2))); return
+  verify_bytes(fire, rep, b2, "edited %s" % kind)
+  return b2
+
+
 def run_corpus (case, rep):
   pkt = P()
   name = case["name"]; b = case["frame"]
@@ -758,6 +826,7 @@ def do_case (case, rep):
   try:
     if case["mode"] == "built": b = run_built(case, rep)
     elif case["mode"] == "rehome": b = run_rehome(case, rep)
+    elif case["mode"] == "edit": b = run_edit(case, rep)
     else: b = run_corpus(case, rep)
   except Exception:
     rep.violation("C14 harness-visible exception",
@@ -773,11 +842,13 @@ def plan (tier, seed):
             [dict(mode="corpus", sub=0)] +
             [dict(mode="template", per=600, sub=i) for i in range(2)] +
             [dict(mode="rehome", per=200, sub=i) for i in range(2)] +
+            [dict(mode="edit", per=60, sub=i) for i in range(2)] +
             [dict(mode="ids", n=140000, sub=0)])
   return ([dict(mode="built", per=9000, sub=i) for i in range(64)] +
           [dict(mode="corpus", sub=0)] +
           [dict(mode="template", per=40000, sub=i) for i in range(16)] +
           [dict(mode="rehome", per=8000, sub=i) for i in range(8)] +
+          [dict(mode="edit", per=3000, sub=i) for i in range(8)] +
           [dict(mode="ids", n=400000, sub=0)])
 
 
@@ -829,6 +900,12 @@ def run (spec, rep):
         fam, raw = t(rng)
         do_case(dict(mode="corpus", name="t:" + fam, frame=raw, template=True,
                      layers=corpus.FAMILY_LAYERS[fam]), rep)
+    return
+  if spec["mode"] == "edit":
+    for k in KINDS:
+      for i in range(spec["per"]):
+        do_case(dict(mode="edit", kind=k,
+                     seed="c14/%d/%d/edit/%s/%d" % (spec["seed"], spec["sub"], k, i)), rep)
     return
   if spec["mode"] == "rehome":
     for k in REHOME_KINDS:
